@@ -2,7 +2,8 @@
 
 Tie T: T3 (row/column normalisation), T5 (region -> tile selection and slice bounds), T6 (get_tile_array
 bounds/padding), T7b (tile counts of compute_tile_positions_per_frame), T7e (z origin / loop nest of
-iter_tiled_full_frame_data, from which the TILED_FULL frame table is derived), regenerated on every run.
+iter_tiled_full_frame_data, from which the TILED_FULL frame table is derived), T4o (emptiness test of a float mask pixel for
+omit_empty_frames vs the value stored for it), regenerated on every run.
 Tie C: the composed model (Model/Tiling.lean: table selection, copy loop, TILED_FULL table, the tiling loop of
 the Segmentation constructor) against
   L0  Image.get_total_pixel_matrix on synthetic tiled slide images (TILED_FULL / TILED_SPARSE, omitted tiles,
@@ -22,7 +23,7 @@ import itertools
 import numpy as np
 
 PROP = 'C04'
-TARGETS = ['T3', 'T5', 'T6', 'T7b', 'T7e']
+TARGETS = ['T3', 'T5', 'T6', 'T7b', 'T7e', 'T4o']
 LEAN_MODULES = ['HdVerif.Props.C04']
 MODEL_MODULES = ['HdVerif.Model.TilingJson']
 NAMESPACE = 'HdVerif.C04'
@@ -520,6 +521,8 @@ def _seg_config(ctx, idx):
     omit_empty = r.random() < (0.15 if org == 'TILED_FULL' else 0.6)
     nseg = r.choice([1, 1, 2, 2, 3])
     style = 'labelmap' if typ == 'LABELMAP' else r.choice(['labelmap', 'stack'])
+    if typ == 'FRACTIONAL' and r.random() < 0.4:
+        style = 'quantisation-boundary'      # float fractions around the rounding boundaries in otherwise empty tiles
     p_empty = r.choice([0.0, 0.3, 0.6, 0.9])
     all_empty = r.random() < 0.04
     if org == 'TILED_FULL' and omit_empty and r.random() < 0.5:
@@ -529,7 +532,9 @@ def _seg_config(ctx, idx):
                 src_full=r.random() < 0.5, roundtrip=r.random() < 0.3,
                 layout=r.choice(LAYOUTS), org_spelling=r.choice(['str', 'enum']), tile_spelling=r.choice(['tuple', 'list', 'np.int64', 'np.uint8', 'np.uint16']),
                 segnum_spelling=r.choice(['list', 'tuple', 'ndarray']), int_spelling=r.choice(['int', 'int', 'np.int64', 'np.int32']),
-                entry=r.choice(['segread', 'Segmentation.from_dataset', 'segread-lazy']))
+                entry=r.choice(['segread', 'Segmentation.from_dataset', 'segread-lazy']),
+                mfv=r.choice([255, 255, 8, 16, 100]) if typ == 'FRACTIONAL' else None,
+                float_dtype=r.choice(['float64', 'float32']))
 
 
 def _seg_mask(ctx, cfg):
@@ -549,18 +554,127 @@ def _seg_mask(ctx, cfg):
         lab = nr.integers(0, n, size=(R, C), endpoint=True) * (nr.random((R, C)) < 0.6) * live
         E = {s: (lab == s).astype(np.int64) for s in range(1, n + 1)}
         if cfg['type'] == 'FRACTIONAL':
-            E = {s: e * 255 for s, e in E.items()}
+            E = {s: e * (cfg.get('mfv') or 255) for s, e in E.items()}
         arr = lab.astype(np.uint8)[None]
+    elif cfg['style'] == 'quantisation-boundary':
+        # every tile is empty except for at most a few pixels whose fraction f = v * mfv sits around the quantisation boundaries:
+        # f in (0, 0.5) -> stored 0 (tile may stay empty), f = 0.5 -> 0 (ties to even), f in (0.5, 1) -> 1, f = 1.5 -> 2, f = 2.5 -> 2.
+        # Power-of-two mfv make v * mfv exact; for the others only fractions clear of a half are used.
+        mfv = cfg.get('mfv') or 255
+        exact = mfv in (8, 16)
+        fr = [0.25, 0.5, 0.75, 1.0, 1.5, 2.5, float(mfv)] if exact else [0.2, 0.3, 0.7, 0.8, 1.0, 1.2, 2.7, float(mfv)]
+        f = np.zeros((R, C, n), dtype=np.float64)
+        for i in range(nth):
+            for j in range(ntw):
+                for s in range(n):
+                    if r.random() < 0.55:
+                        ii = min(R - 1, i * th + r.randrange(th))
+                        jj = min(C - 1, j * tw + r.randrange(tw))
+                        f[ii, jj, s] = r.choice(fr)
+        if cfg['all_empty']:
+            f[:] = 0
+        arr = (f / float(mfv)).astype(cfg.get('float_dtype', 'float64'))[None]
+        # what must be stored (and read back raw): the fraction rounded half to even, per pixel, as the library computes it
+        stored = np.around(arr[0].astype(arr.dtype) * float(mfv)).astype(np.int64)
+        E = {s: stored[..., s - 1] for s in range(1, n + 1)}
     else:
         if cfg['type'] == 'FRACTIONAL':
-            k = nr.integers(0, 255, size=(R, C, n), endpoint=True) * (nr.random((R, C, n)) < 0.5) * live[..., None]
-            arr = (k / 255.0).astype(np.float64)[None]
+            mfv = cfg.get('mfv') or 255
+            k = nr.integers(0, mfv, size=(R, C, n), endpoint=True) * (nr.random((R, C, n)) < 0.5) * live[..., None]
+            arr = (k / float(mfv)).astype(np.float64)[None]
             E = {s: k[..., s - 1].astype(np.int64) for s in range(1, n + 1)}
         else:
             k = (nr.random((R, C, n)) < 0.4) * live[..., None]
             arr = k.astype(np.uint8)[None]
             E = {s: k[..., s - 1].astype(np.int64) for s in range(1, n + 1)}
     return arr, E
+
+
+def _seg_history(ctx, cfg, reader, E, segs, R, C, base_hist):
+    """A HISTORY of operations on ONE tiled segmentation object: `pixel_array` accessed at a random step (after which the decoded
+    frames are cached and later reads work on views of that cache), region reads with different options -- stacked / combined
+    (with and without relabel), raw / rescaled fractions, other dtypes -- in random order, identical reads repeated.  After EVERY
+    step: the result against the oracle, the cached frames and PixelData unchanged, repeated reads equal."""
+    r = ctx.rng('seghist', cfg['idx'])
+    mfv = cfg.get('mfv') or 255
+    typ = cfg['type']
+    disjoint = all(int(np.sum([(E[s] > 0) for s in segs], axis=0).max()) <= 1 for _ in [0])
+    binaryish = all(set(np.unique(E[s]).tolist()) <= {0, mfv if typ == 'FRACTIONAL' else 1} for s in segs)
+    lazy = cfg['roundtrip'] and cfg.get('entry') == 'segread-lazy'
+    cache = None
+    seen = {}
+    steps = ['pixel_array'] + [r.choice(['stacked', 'stacked', 'combined', 'combined-relabel', 'rescaled', 'dtype', 'subset'])
+                               for _ in range(ctx.n(5, 7))]
+    r.shuffle(steps)
+    for step_no, step in enumerate(steps):
+        if step == 'pixel_array':
+            if lazy:
+                continue
+            st, pa = _fetch(lambda: reader.pixel_array)
+            if st == 'ok' and cache is None:
+                cache = np.array(pa, copy=True)
+            ctx.case(request_class='history:pixel_array', outcome='ok' if st == 'ok' else pa.split(':')[0], **base_hist)
+            continue
+        req = random_requests(r, R, C, cfg['th'], cfg['tw'], 1)[0] if r.random() < 0.7 else (None, None, None, None, False)
+        if not modelable(req):
+            continue
+        rs, re, cs, ce, ai = req
+        orc = oracle_region(R, C, req)
+        sub = list(segs) if step != 'subset' or len(segs) == 1 else sorted(r.sample(segs, r.randint(1, len(segs) - 1)))
+        kw = dict(segment_numbers=sub, as_indices=ai)
+        if step in ('combined', 'combined-relabel'):
+            kw.update(combine_segments=True, relabel=(step == 'combined-relabel'))
+        elif step == 'rescaled':
+            kw.update(combine_segments=False, rescale_fractional=True)
+        elif step == 'dtype':
+            kw.update(combine_segments=False, rescale_fractional=False, dtype=r.choice([np.uint16, np.int32, np.float64]))
+        else:
+            kw.update(combine_segments=False, rescale_fractional=False)
+        st, val = _fetch(reader.get_total_pixel_matrix, row_start=rs, row_end=re, column_start=cs, column_end=ce, **kw)
+        case = {'seg': cfg, 'history_step': step_no, 'steps': steps[:step_no + 1], 'request': list(req), 'segments': sub}
+        ctx.case(request_class='history:' + step, outcome='ok' if st == 'ok' else val.split(':')[0], **base_hist)
+        key = (tuple(req), step, tuple(sub), str(kw.get('dtype')))
+        # ---- oracle for this step
+        if orc[0] == 'refuse':
+            if st == 'ok':
+                ctx.fail(case, {'what': 'request outside the matrix was not refused'}, site='Segmentation.get_total_pixel_matrix')
+        elif st == 'ok' and orc[1] < orc[2] and orc[3] < orc[4]:
+            r0, r1, c0, c1 = orc[1:]
+            got = np.asarray(val)
+            if step in ('combined', 'combined-relabel'):
+                exp = np.zeros((r1 - r0, c1 - c0), dtype=np.int64)
+                for pos, s_ in enumerate(sub, 1):
+                    exp[E[s_][r0:r1, c0:c1] > 0] = pos if step == 'combined-relabel' else s_
+                ok = got.shape == exp.shape and np.array_equal(got.astype(np.int64), exp)
+            elif step == 'rescaled' and typ == 'FRACTIONAL':
+                exp = np.stack([E[s_][r0:r1, c0:c1] for s_ in sub], axis=-1) / float(mfv)
+                ok = got.shape == exp.shape and np.allclose(got, exp, rtol=0, atol=1e-6)
+            else:
+                exp = np.stack([E[s_][r0:r1, c0:c1] for s_ in sub], axis=-1)
+                ok = got.shape == exp.shape and np.array_equal(got.astype(np.int64), exp)
+            if not ok:
+                ctx.fail(case, {'what': 'a read in a history of reads on one object differs from the mask handed in',
+                                'got': got.tolist() if got.size <= 48 else '...', 'want': exp.tolist() if exp.size <= 48 else '...'},
+                         site='Segmentation.get_total_pixel_matrix')
+        elif st == 'err' and orc[0] == 'ok' and orc[1] < orc[2] and orc[3] < orc[4]:
+            # combining is refused by design for overlapping segments or non-binary fractions
+            designed = step in ('combined', 'combined-relabel') and (not disjoint or not binaryish)
+            if not designed:
+                ctx.fail(case, {'what': 'valid read refused in a history of reads on one object', 'error': val},
+                         site='Segmentation.get_total_pixel_matrix')
+        # ---- repeated identical reads agree
+        if st == 'ok':
+            if key in seen and not (np.asarray(val).shape == seen[key].shape and np.array_equal(np.asarray(val), seen[key])):
+                ctx.fail(case, {'what': 'an identical read repeated later on the same object gives another result'},
+                         site='Segmentation.get_total_pixel_matrix')
+            seen.setdefault(key, np.array(val, copy=True))
+        # ---- reading must not touch the cached decoded frames
+        if cache is not None:
+            st2, pa = _fetch(lambda: reader.pixel_array)
+            if st2 != 'ok' or not np.array_equal(np.asarray(pa), cache):
+                ctx.fail(case, {'what': 'a region read modified the cached pixel_array of the segmentation'},
+                         site='Segmentation.get_total_pixel_matrix')
+                cache = np.array(pa, copy=True) if st2 == 'ok' else None
 
 
 def _check_seg(ctx, cfg, reqs, pending):
@@ -582,6 +696,8 @@ def _check_seg(ctx, cfg, reqs, pending):
         sp = cfg.get('tile_spelling', 'tuple')
         kw['tile_size'] = tuple(cfg['tile']) if sp == 'tuple' else list(cfg['tile']) if sp == 'list' else \
             tuple(getattr(np, sp[3:])(v) for v in cfg['tile'])
+    if cfg.get('mfv'):
+        kw['max_fractional_value'] = cfg['mfv']
     st, seg = _fetch(hd.seg.Segmentation, [src], handed, cfg['type'], [seg_description(s) for s in range(1, n + 1)],
                      hd.UID(), 1, hd.UID(), 1, 'verif', 'model', '1', 'dev', tile_pixel_array=True,
                      omit_empty_frames=cfg['omit_empty'], **kw)
@@ -590,6 +706,7 @@ def _check_seg(ctx, cfg, reqs, pending):
     full = cfg['org'] == 'TILED_FULL'
     base_hist = dict(kind='seg', seg_type=cfg['type'], organisation=str(cfg['org']), omit_empty=cfg['omit_empty'],
                      tile=f'{th}x{tw}', divides=(R % th == 0, C % tw == 0), style=cfg['style'], layout=cfg.get('layout', 'C'),
+                     max_fractional_value=str(cfg.get('mfv')), float_dtype=cfg.get('float_dtype') if cfg['style'] == 'quantisation-boundary' else 'n/a',
                      org_spelling=cfg.get('org_spelling', 'str'), remainder=(min(R % th, 2), min(C % tw, 2)),
                      tile_spelling=cfg.get('tile_spelling', 'tuple') if cfg['tile'] is not None else 'default',
                      entry=cfg.get('entry', 'segread') if cfg['roundtrip'] else 'constructor')
@@ -727,6 +844,7 @@ def _check_seg(ctx, cfg, reqs, pending):
             ctx.fail({'seg': cfg, 'request': list(first_ok[0]), 'segments': first_ok[1], 'repeat_after': len(cases)},
                      {'what': 'the same read repeated on the same object after other reads gives another result'},
                      site='Segmentation.get_total_pixel_matrix')
+    _seg_history(ctx, cfg, reader, E, segs, R, C, base_hist)
     if snap is not None and (bytes(reader.PixelData), int(reader.NumberOfFrames)) != snap:
         ctx.fail({'seg': cfg}, {'what': 'reading regions modified the segmentation'}, site='Segmentation.get_total_pixel_matrix')
     if not np.array_equal(handed, arr):
